@@ -89,7 +89,9 @@ class DepSet(boolean.AndRestriction, caching=False):
                     if not depsets[-1] or not raw_conditionals:
                         raise DepsetParseError(dep_str, attr=attr)
                     elif raw_conditionals[-1] in operators:
-                        if len(depsets[-1]) == 1:
+                        # a group of one element means that element, except
+                        # for at-most-one-of which holds whatever its member is.
+                        if len(depsets[-1]) == 1 and raw_conditionals[-1] != "??":
                             depsets[-2].append(depsets[-1][0])
                         else:
                             depsets[-2].append(
